@@ -132,15 +132,37 @@ def readRecord (s : SF) (rid : Bytes) : Outcome Span :=
   | some off =>
     if off ≥ s.file.length then .err "offset out of bounds" else parseSpan (s.file.drop off)
 
-/-- accumulator of `scanFile` -/
+/-- accumulator of `scanFile`; `patches` are the stores issued through the mapping while scanning
+    (writable modes only): freeing superseded spans, giving a zero tail a FREE header -/
 structure ScanAcc where
   index : List (Bytes × Nat)
   seqs : List (Bytes × Nat)
   free : List Sp
   highest : Nat
+  patches : List (Nat × Bytes) := []
+
+/-- `freeSuperseded(offset)` -/
+def freeSuperseded (file : Bytes) (ro : Bool) (acc : ScanAcc) (off : Nat) : ScanAcc :=
+  if ro then acc else
+  match rd32At file (off + 4) with
+  | none => acc
+  | some len => { acc with patches := acc.patches ++ [(off, be32 freeMagic)], free := markFree acc.free off len }
+
+/-- what `scanFile` does with a checksum-valid parsed active span found at `off` -/
+def scanActive (file : Bytes) (ro : Bool) (acc : ScanAcc) (off : Nat) (seq : Nat) (rid : Bytes) : ScanAcc :=
+  let highest := if seq > acc.highest then seq else acc.highest
+  match idxGet acc.seqs rid with
+  | none => { acc with highest := highest, seqs := idxSet acc.seqs rid seq, index := idxSet acc.index rid off }
+  | some e =>
+    if seq > e then
+      let acc1 := match idxGet acc.index rid with
+        | some old => freeSuperseded file ro acc old
+        | none => acc
+      { acc1 with highest := highest, seqs := idxSet acc1.seqs rid seq, index := idxSet acc1.index rid off }
+    else freeSuperseded file ro { acc with highest := highest } off
 
 /-- `scanFile` loop; `rest = file.drop off`; fuel bounds the number of spans -/
-def scanLoop (fileSize : Nat) : Nat → Nat → Bytes → ScanAcc → Outcome (ScanAcc × Nat)
+def scanLoop (file : Bytes) (ro : Bool) (fileSize : Nat) : Nat → Nat → Bytes → ScanAcc → Outcome (ScanAcc × Nat)
   | 0, off, _, acc => .ok (acc, off)
   | fuel+1, off, rest, acc =>
     if off ≥ fileSize then .ok (acc, off) else
@@ -148,39 +170,37 @@ def scanLoop (fileSize : Nat) : Nat → Nat → Bytes → ScanAcc → Outcome (S
     match rd32 rest, rd32 (rest.drop 4) with
     | some magic, some len =>
       if magic = 0 then
-        .ok ({ acc with free := markFree acc.free off (fileSize - off) }, fileSize)
+        let patches := if ro then acc.patches
+          else acc.patches ++ [(off, be32 freeMagic ++ be32 ((fileSize - off) % 4294967296))]
+        .ok ({ acc with free := markFree acc.free off (fileSize - off), patches := patches }, fileSize)
       else if off + len > fileSize then .ok (acc, off)
       else if magic = activeMagic then
         let spanData := rest.take len
         if !verifyChecksum spanData then
           if len = 0 then .err "length is 0; can't continue"
-          else scanLoop fileSize fuel (off + len) (rest.drop len) acc
+          else scanLoop file ro fileSize fuel (off + len) (rest.drop len) acc
         else
           match parseSpan spanData with
           | .panic m => .panic m
-          | .err _ => scanLoop fileSize fuel (off + len) (rest.drop len) acc
+          | .err _ => scanLoop file ro fileSize fuel (off + len) (rest.drop len) acc
           | .ok span =>
-            let highest := if span.seq > acc.highest then span.seq else acc.highest
-            let newer := match idxGet acc.seqs span.rid with
-              | none => true
-              | some e => decide (span.seq > e)
-            let acc' : ScanAcc :=
-              if newer then { acc with highest := highest, seqs := idxSet acc.seqs span.rid span.seq,
-                                       index := idxSet acc.index span.rid off }
-              else { acc with highest := highest }
+            let acc' := scanActive file ro acc off span.seq span.rid
             if len = 0 then .err "length is 0; can't continue"
-            else scanLoop fileSize fuel (off + len) (rest.drop len) acc'
+            else scanLoop file ro fileSize fuel (off + len) (rest.drop len) acc'
       else
         let acc' := if magic = freeMagic then { acc with free := markFree acc.free off len } else acc
         if len = 0 then .err "length is 0; can't continue"
-        else scanLoop fileSize fuel (off + len) (rest.drop len) acc'
+        else scanLoop file ro fileSize fuel (off + len) (rest.drop len) acc'
     | _, _ => .ok (acc, off)
 
-/-- `scanFile` -/
-def scanFile (file : Bytes) : Outcome SF :=
-  match scanLoop file.length (file.length + 1) 0 file { index := [], seqs := [], free := [], highest := 0 } with
+def applyPatches (file : Bytes) (patches : List (Nat × Bytes)) : Bytes :=
+  patches.foldl (fun f p => splice f p.1 p.2) file
+
+/-- `scanFile`; `ro` = the file was opened `ReadOnly` (nothing is written to the mapping) -/
+def scanFile (file : Bytes) (ro : Bool := false) : Outcome SF :=
+  match scanLoop file ro file.length (file.length + 1) 0 file { index := [], seqs := [], free := [], highest := 0 } with
   | .ok (acc, off) =>
-    .ok { file := file, index := acc.index, free := markFree acc.free off (file.length - off),
+    .ok { file := applyPatches file acc.patches, index := acc.index, free := markFree acc.free off (file.length - off),
           seq := (acc.highest + 1) % 4294967296 }
   | .err m => .err m
   | .panic m => .panic m
@@ -211,6 +231,6 @@ def openFile (existing : Option Bytes) (mode : FileMode) : Outcome SF :=
     if !before.isEmpty ∧ before.length < 4 then .err "EOF reading magic" else
     if !before.isEmpty ∧ rd32 before ≠ some activeMagic ∧ rd32 before ≠ some freeMagic then
       .err "invalid magic number"
-    else scanFile file
+    else scanFile file (decide (mode = .readOnly))
 
 end Syzgy
